@@ -393,6 +393,12 @@ def run_propka(pdb_text, optargs=(), name="x.pdb"):
     impl_setup()
     import propka.run
     _CAP.records.clear()
-    mol = propka.run.single(name, optargs=list(optargs) + ["--quiet"] if "--quiet" not in optargs and "-q" not in optargs else list(optargs),
-                            stream=io.StringIO(pdb_text), write_pka=False)
+    optargs = list(optargs)
+    if "--quiet" not in optargs and "-q" not in optargs and "--log-level" not in optargs:
+        optargs.append("--quiet")
+    mol = propka.run.single(name, optargs=optargs, stream=io.StringIO(pdb_text), write_pka=False)
+    logging.getLogger("propka").setLevel(logging.WARNING)
+    for lg in list(logging.Logger.manager.loggerDict.values()):
+        if isinstance(lg, logging.Logger) and lg.name.startswith("propka"):
+            lg.setLevel(logging.NOTSET if lg.name != "propka" else logging.WARNING)
     return mol, list(_CAP.records)
